@@ -11,12 +11,12 @@ OpLine(o) == [k |-> "op", id |-> o.id, act |-> o.act, cls |-> o.cls, tpl |-> [j 
               def |-> Tup(o.def), t |-> Tup(o.t), b |-> Tup(o.b), fmt |-> o.fmt, core |-> (o.id \in CoreOps)]
 HistLines == LET sq == SetToSeq(Histories(L, Deep)) IN [j \in 1..Len(sq) |-> [k |-> "h", h |-> Tup(sq[j])]]
 LoadLines ==
-  LET one(s) == LET n == Len(LoadSets[s])  ps == SetToSeq(Perms(n)) IN
-                [j \in 1..Len(ps) |-> [k |-> "load", set |-> s, perm |-> Tup(ps[j]),
+  LET one(s) == LET n == Len(LoadSets[s].lines)  ps == SetToSeq(Perms(n)) IN
+                [j \in 1..Len(ps) |-> [k |-> "load", set |-> s, tag |-> LoadSets[s].tag, perm |-> Tup(ps[j]),
                                        tpl |-> [x \in 1..Len(LoadTemplates) |-> Tup(LoadTemplates[x])],
-                                       lines |-> [x \in 1..n |-> Tup(LoadSets[s][x].line)],
-                                       names |-> [x \in 1..n |-> Tup(LoadSets[s][x].name)],
-                                       probes |-> [x \in 1..n |-> Tup(LoadSets[s][x].probe)]]]
+                                       lines |-> [x \in 1..n |-> Tup(LoadSets[s].lines[x].line)],
+                                       names |-> [x \in 1..n |-> Tup(LoadSets[s].lines[x].name)],
+                                       probes |-> [x \in 1..n |-> Tup(LoadSets[s].lines[x].probe)]]]
       RECURSIVE cat(_)
       cat(s) == IF s = 0 THEN <<>> ELSE cat(s - 1) \o one(s)
   IN cat(Len(LoadSets))
